@@ -196,11 +196,20 @@ def run(ctx):
     ctx.rule("R11.11", "NULL-BUFFER-SCAN: the checker calls the scanner without a string buffer (NULL) only for a token it knows to be numeric - the call is unreachable when the range's type is not one of the numeric range types - because strings, symbols and blobs are stored through that buffer")
     from .C19 import _guards as _g19
     chkf = u.function("rtosc_skip_next_printed_arg")
-    nums = [d for d in A.walk(u.body(chkf)) if d.get("kind") == "VarDecl" and any(A.callee_name(c) == "numeric_range_types" for c in A.calls_in(d))]
+    # the checker and the file-local helpers it hands the range check to (each with its own flag and guards)
+    bodies11 = [chkf]
+    for _ in range(2):
+        for f_ in list(bodies11):
+            for c in A.calls_in(u.body(f_)):
+                for g_ in u.functions.get(A.callee_name(c) or "", []):
+                    if g_ not in bodies11 and u.body(g_) is not None and g_.get("storageClass") == "static" and \
+                            any(True for _c in A.calls_in(u.body(g_), "rtosc_scan_arg_val")) and g_.get("name") not in ("rtosc_scan_arg_val", "rtosc_scan_arg_vals"):
+                        bodies11.append(g_)
+    nums = [d for f_ in bodies11 for d in A.walk(u.body(f_)) if d.get("kind") == "VarDecl" and any(A.callee_name(c) == "numeric_range_types" for c in A.calls_in(d))]
     ctx.require(len(nums) >= 1, "R11.11: the `numeric` flag of the range check was not found")
     num_ids = {d["id"] for d in nums}
     n11 = 0
-    for c in A.calls_in(u.body(chkf), "rtosc_scan_arg_val"):
+    for c in [c_ for f_ in bodies11 for c_ in A.calls_in(u.body(f_), "rtosc_scan_arg_val")]:
         a_ = A.kids(c)[1:]
         if len(a_) < 4 or A.strip_casts(a_[3]).get("kind") not in ("GNUNullExpr", "CXXNullPtrLiteralExpr") and A.int_literal(a_[3]) != 0 and A.src(a_[3]).strip("() ") not in ("NULL", "(void *)0", "0"):
             continue
@@ -787,9 +796,18 @@ def left_neighbour_checker(ctx, u, rule):
     # ---- R11.14: the checker's choice of the left neighbour tells arrays apart (sibling of R11.12)
     ctx.rule(rule, "LOOKBEHIND-KINDS (checker): where the checker looks for the value a range counts on from - the text of the previous argument - it sets an array apart (its first character '[' or its type 'a') and a quoted string (its first character or its type); an ellipsis inside either is not the end of a preceding range, and the scanner (R11.12) does not count on from an array")
     chk14 = u.function("rtosc_skip_next_printed_arg")
-    llp = [p_ for p_ in u.params(chk14) if "char" in (A.qtype(p_) or "") and "*" in (A.qtype(p_) or "") and any(
-        y.get("kind") == "CallExpr" and A.callee_name(y) == "strstr" and A.ref_id(A.kids(y)[1]) == p_["id"] for y in A.walk(u.body(chk14)))]
-    ctx.require(len(llp) == 1, rule + ": the checker's cursor to the previous argument (searched for an ellipsis) was not found")
+    # the checker itself, or the file-local helper it hands the range check (and the cursor) to
+    bodies14 = [chk14]
+    for _ in range(2):
+        for f_ in list(bodies14):
+            for c in A.calls_in(u.body(f_)):
+                for g_ in u.functions.get(A.callee_name(c) or "", []):
+                    if g_ not in bodies14 and u.body(g_) is not None and g_.get("storageClass") == "static":
+                        bodies14.append(g_)
+    llp_all = [(f_, p_) for f_ in bodies14 for p_ in u.params(f_) if "char" in (A.qtype(p_) or "") and "*" in (A.qtype(p_) or "") and any(
+        y.get("kind") == "CallExpr" and A.callee_name(y) == "strstr" and A.ref_id(A.kids(y)[1]) == p_["id"] for y in A.walk(u.body(f_)))]
+    ctx.require(len(llp_all) == 1, rule + ": the checker's cursor to the previous argument (searched for an ellipsis) was not found")
+    chk14, llp = llp_all[0][0], [llp_all[0][1]]
     blocks14 = [x for x in A.walk(u.body(chk14)) if x.get("kind") == "IfStmt" and A.ref_id(A.kids(x)[0]) == llp[0]["id"]]
     ctx.require(len(blocks14) == 1, rule + ": the block guarded by the previous-argument cursor was not found (%d)" % len(blocks14))
     lits14 = set()
